@@ -13,9 +13,9 @@ from pbt.core import call, workdir
 PROP = "C13"
 TECHNIQUE = "model-based / stateful testing over operation histories: Hypothesis RuleBasedStateMachine + exhaustive enumeration of all operation sequences up to length 3 (thorough 4) on every configuration + Hypothesis-sampled longer sequences; invariants checked after every step against a reference list of filtered catalogs"
 RULE = ("one case = small catalog forecast (1..6 synthetic catalogs, some empty, some events removed by the configured filters) x configuration "
-        "{in-memory list, file loader store=True, file loader store=False} x {no filters, magnitude+time filters with apply_filters=True} x "
+        "{in-memory list (also handed over as a generator or a tuple), file loader store=True, file loader store=False} x {no filters, magnitude+time filters with apply_filters=True} x "
         "{filter_spatial off, on} x operation sequence over {iterate, get_event_counts, get_expected_rates, spatial_counts, magnitude_counts, "
-        "number/spatial/magnitude/pseudolikelihood test}; after every operation: the pass yields the model's catalogs in order, n_cat and "
+        "number/spatial/magnitude/pseudolikelihood test, refused requests (tests with an observed event outside the region or an empty observation; none abandons a pass)}; after every operation: the pass yields the model's catalogs in order, n_cat and "
         "event counts are those of one pass, expected rates equal the model mean on every request, evaluation results equal those of a fresh "
         "forecast. Non-trivial = history with two complete passes of different kinds before a count/rate request on a filtered configuration; "
         "distinct = canonical JSON.")
